@@ -14,7 +14,7 @@ def main():
         "termination is only OBSERVED: cluster-timely schedules of the real qbft.Run (n = 1..7, at most f members crashed possibly mid-broadcast or never started, inputs present, all messages delivered in random order before any timer fires, all running undecided members time out together when the network is quiet) must end with every running member deciding within n+3 timeout waves; the bridge from real time to this schedule is not modelled",
         "the never-unjust monitor is evaluated on executions in which every process is a real honest qbft.Run and Compare never fails (with scripted Compare failures the statement is false by design: cluster-cmpmix executions are excluded)",
     ]
-    R.proofs()
+    R.proofs(extra_targets=["Qbft/Corr.v"])
     n = 8000 if R.thorough else 500
     res = qe.run(R, n)
     qe.coverage(R, res)
